@@ -20,6 +20,8 @@
 // Tokens: g gs f | a<q>.<x> p<q> tp<q> u ra<q> | lk<l> tl<l> ul | c:<kind>:<v>
 #include "VerifHooks.hpp"
 #include "VerifAccess.hpp"
+#include "MemorySpace.hpp"
+#include "PhotonBuffer.hpp"
 
 #include <atomic>
 #include <condition_variable>
@@ -508,7 +510,7 @@ static int do_maint(unsigned long seed, int nseq, const char *outname) {
     std::vector< size_t > held;
     const int nops = 6 + rnd() % 14;
     for (int k = 0; k < nops; ++k) {
-      const uint64_t r = rnd() % 10;
+      const uint64_t r = rnd() % 12;
       std::string op;
       long arg = -1, ret = -1;
       if (r < 5 && held.size() < size) {
@@ -539,6 +541,24 @@ static int do_maint(unsigned long seed, int nseq, const char *outname) {
           if (v < off)
             keep.push_back(v);
         held = keep;
+      } else if (r == 10 && held.empty() && rnd() % 2) {
+        // a block of slots at the start of the (empty) pool, as the simulations reserve their persistent tasks
+        op = "reserve";
+        arg = rnd() % size; // strictly smaller than the size (asserted by the code)
+        pool.get_free_elements(arg);
+        for (long v = 0; v < arg; ++v)
+          held.push_back(v);
+      } else if (r == 10 && held.empty()) {
+        op = "clear_fast"; // precondition: nothing is held
+        pool.clear_fast();
+      } else if (r == 9) {
+        // enumeration of the slots in use (nothing changes); ret = number reported, arg = bit set of the slots reported
+        op = "active";
+        std::vector< int * > outp(size, nullptr);
+        ret = pool.get_active_elements(size, &outp[0]);
+        arg = 0;
+        for (long v = 0; v < ret; ++v)
+          arg |= 1l << (outp[v] - &pool[0]);
       } else {
         op = "clear";
         pool.clear();
@@ -550,6 +570,115 @@ static int do_maint(unsigned long seed, int nseq, const char *outname) {
       fprintf(out, "{\"e\":\"m\",\"op\":\"%s\",\"arg\":%ld,\"ret\":%ld,\"flags\":[%s],\"taken\":%zu,\"cursor\":%zu}\n", op.c_str(), arg,
               ret, flags.c_str(), VerifAccess::taken(pool), VerifAccess::cursor(pool));
     }
+  }
+  // (c) sequential histories of one TaskQueue (tasks without dependencies): add_task, add_tasks (a range), get_task and
+  //     try_get_task; after every call the queue content: {"e":"q","op":..,"a":..,"b":..,"ret":..,"queue":[..]}
+  for (int q = 0; q < nseq; ++q) {
+    const size_t ntask = 12;
+    ThreadSafeVector< Task > tasks(ntask + 1, "tasks");
+    tasks.get_free_elements(ntask);
+    TaskQueue queue(ntask + 2, "queue");
+    fprintf(out, "{\"e\":\"qreset\",\"size\":%zu}\n", ntask + 2);
+    size_t next = 0; // tasks [0, next) have been added
+    const int nops = 6 + rnd() % 10;
+    for (int k = 0; k < nops; ++k) {
+      const uint64_t r = rnd() % 8;
+      std::string op;
+      long a = -1, b = -1, ret = -1;
+      if (r < 2 && next < ntask) {
+        op = "add";
+        a = next++;
+        queue.add_task(a);
+      } else if (r < 4 && next < ntask) {
+        op = "add_range";
+        a = next;
+        b = next + rnd() % (ntask - next + 1);
+        queue.add_tasks(a, b);
+        next = b;
+      } else if (r < 6) {
+        op = "get";
+        const size_t t = queue.get_task(tasks);
+        ret = (t == NO_TASK) ? -1 : (long)t;
+        if (t != NO_TASK)
+          tasks[t].unlock_dependency();
+      } else {
+        op = "try_get";
+        const size_t t = queue.try_get_task(tasks);
+        ret = (t == NO_TASK) ? -1 : (long)t;
+        if (t != NO_TASK)
+          tasks[t].unlock_dependency();
+      }
+      std::string qs;
+      for (size_t i = 0; i < VerifAccess::qsize(queue); ++i)
+        qs += std::string(i ? "," : "") + std::to_string(VerifAccess::qat(queue, i));
+      fprintf(out, "{\"e\":\"q\",\"op\":\"%s\",\"a\":%ld,\"b\":%ld,\"ret\":%ld,\"queue\":[%s],\"locked\":%d}\n", op.c_str(), a, b, ret,
+              qs.c_str(), (int)VerifAccess::qlocked(queue));
+    }
+  }
+  // (d) MemorySpace::add_photons: packets of a staging buffer are appended to a pool buffer; when it becomes full the
+  //     rest goes into a fresh buffer that inherits subgrid and direction. Packets are identified by their position.
+  //     {"e":"ovf","cap":C,"t0":n,"nin":m,"ret_same":0|1,"fresh":0|1,"target":[ids],"spill":[ids],"hdr":0|1,"taken":k}
+  {
+    MemorySpace *space = new MemorySpace(8);
+    PhotonBuffer *staging = new PhotonBuffer();
+    long nextid = 1;
+    const int novf = nseq / 3 + 8;
+    for (int q = 0; q < novf; ++q) {
+      const uint_fast32_t cap = PHOTONBUFFER_SIZE;
+      uint_fast32_t t0, nin;
+      switch (q % 8) {
+      case 0: t0 = 0; nin = cap; break;            // exactly fills an empty buffer
+      case 1: t0 = cap - 1; nin = 1; break;        // exactly fills
+      case 2: t0 = cap - 1; nin = 2; break;        // one packet spills
+      case 3: t0 = 1; nin = cap; break;            // one packet spills, staging full
+      case 4: t0 = cap - 1; nin = cap; break;      // nearly everything spills
+      default:
+        t0 = rnd() % cap;
+        nin = 1 + rnd() % cap;
+      }
+      const size_t dummy = (q % 3 == 0) ? space->get_free_buffer() : (size_t)-1; // moves the cursor around
+      const size_t target = space->get_free_buffer();
+      const size_t sub = 3 + rnd() % 50;
+      const int dir = rnd() % 27;
+      (*space)[target].set_subgrid_index(sub);
+      (*space)[target].set_direction(dir);
+      std::string idt, ids;
+      std::vector< long > expect;
+      for (uint_fast32_t i = 0; i < t0; ++i) {
+        const uint_fast32_t j = (*space)[target].get_next_free_photon();
+        (*space)[target][j].set_position(CoordinateVector<>((double)nextid, 0., 0.));
+        expect.push_back(nextid++);
+      }
+      staging->reset();
+      for (uint_fast32_t i = 0; i < nin; ++i) {
+        const uint_fast32_t j = staging->get_next_free_photon();
+        (*staging)[j].set_position(CoordinateVector<>((double)nextid, 0., 0.));
+        expect.push_back(nextid++);
+      }
+      const size_t before = space->get_number_of_active_buffers();
+      const size_t ret = space->add_photons(target, *staging);
+      const size_t after = space->get_number_of_active_buffers();
+      auto dump = [&](size_t b) {
+        std::string r;
+        for (uint_fast32_t i = 0; i < (*space)[b].size(); ++i)
+          r += std::string(i ? "," : "") + std::to_string((long)(*space)[b][i].get_position().x());
+        return r;
+      };
+      const bool same = ret == target;
+      fprintf(out, "{\"e\":\"ovf\",\"cap\":%u,\"first\":%ld,\"t0\":%u,\"nin\":%u,\"ret_same\":%d,\"fresh\":%d,\"target\":[%s],\"spill\":[%s],"
+                   "\"hdr\":%d,\"dtaken\":%ld}\n",
+              (unsigned)cap, expect.empty() ? 0 : expect[0], (unsigned)t0, (unsigned)nin, (int)same,
+              (int)(!same && ret != dummy && ret < 8), dump(target).c_str(), same ? "" : dump(ret).c_str(),
+              (int)(same || ((*space)[ret].get_subgrid_index() == sub && (*space)[ret].get_direction() == dir)),
+              (long)after - (long)before);
+      if (!same)
+        space->free_buffer(ret);
+      space->free_buffer(target);
+      if (dummy != (size_t)-1)
+        space->free_buffer(dummy);
+    }
+    delete staging;
+    delete space;
   }
   const char *kinds[] = {"pre_increment", "post_increment", "pre_decrement", "pre_add", "post_add", "pre_subtract"};
   for (int kk = 0; kk < 6; ++kk) {
